@@ -14,10 +14,13 @@ def entries(exclude_ack=True):
     return out
 
 
-def build(entry, ch, acc, max_faults=4, shapes=None, flavor='plain', avoid='~*:^', kinds=None, hostile_values=None, envelope=0.0):
+def build(entry, ch, acc, max_faults=4, shapes=None, flavor='plain', avoid='~*:^', kinds=None, hostile_values=None, envelope=0.0, malformed=0.0, big=0.0):
     """-> (doc, [expectations]) or None"""
     shape = ch.choice(shapes or [(1, 1, 1), (1, 1, 2), (1, 1, 3), (1, 2, 1), (1, 2, 2), (2, 1, 1), (2, 2, 1), (1, 3, 2)])
     kw = dict(p_seg=ch.choice([.2, .4, .7]), p_loop=ch.choice([.15, .3]), max_rep=2, shape=shape, max_segs=250)
+    if big and ch.chance(big):
+        # documents longer than one read buffer of the reader (8 KiB)
+        kw.update(p_seg=.8, p_loop=.5, max_rep=3, max_segs=600, shape=(1, 1, ch.choice([2, 3])))
     doc = None
     for attempt in range(5):
         try:
@@ -56,6 +59,13 @@ def build(entry, ch, acc, max_faults=4, shapes=None, flavor='plain', avoid='~*:^
                 exp['value'] = s.vals[ei][ci]
                 exp['hostile'] = True
         exps.append(exp)
+    if malformed and ch.chance(malformed):
+        cands = faults.candidates(doc, 'junk-segment')
+        if cands:
+            res = faults.inject(doc, 'junk-segment', cands[ch.integer(0, len(cands) - 1)], ch.seed())
+            if res is not None:
+                doc, exp = res
+                exps.append(exp)
     if envelope and ch.chance(envelope):
         k = envelope_fault(doc, ch)
         if k:
